@@ -386,6 +386,83 @@ def path_depths(case):
     return sorted(out)
 
 
+# ------------------------------------------------------------------ loading into instances of every kind
+# `load_state_dict` overwrites an EXISTING object: whatever the receiving instance held before (the order of its
+# table, its node counts, the widths and lengths of its buffers, after its construction or after earlier loads) must
+# be gone afterwards. A case's "loads" = {"target": {"sos", "dicts": None (LookupLanguageModel(V, sos)) | a table of
+# any order, "ctor"}, "seq": [{"src": "aux", "sos", "dicts", "via"} ..., {"src": "main", "via"}]}: the target is
+# constructed, then every state dict of `seq` is loaded into it in turn (the case's own model last); after EVERY load
+# the target must answer like Katz back-off on the table of the model just loaded, hold that model's state dict and
+# its shape attributes. Target and sources share the vocabulary size and the CLASS of the start symbol (inside /
+# outside the vocabulary: what `load_state_dict` documents as "vocab_size and sos must be correct"); the symbol
+# itself may differ (it only names the padding token / the extra unigram slot).
+LOAD_VIA = ("serialised", "direct", "clone")
+
+
+def same_class_sos(rng, V, sos):
+    if 0 <= sos < V:
+        return rng.choice((sos, sos, sos, rng.randrange(V)))
+    return rng.choice((sos, sos, sos, -1, V, V + 3))
+
+
+def gen_loads(rng, V, sos, target_order, pre_orders):
+    """target_order None = the default-constructed instance; pre_orders = orders of the models loaded before the
+    case's own one (each with its own sparsity and, within the class, its own start symbol)."""
+    def tab(s, n):
+        return gen_table(rng, V, s, n, rng.choice((0.2, 0.5, 0.9)), rng.choice((0.0, 0.2)), rng.choice((0.0, 1.0)),
+                         max_top=rng.choice((1, 4, 12)))
+    ts = same_class_sos(rng, V, sos)
+    target = {"sos": ts, "dicts": None if target_order is None else tab(ts, target_order),
+              "ctor": rng.choice(CTORS[:4])}
+    seq = []
+    for n in pre_orders:
+        s = same_class_sos(rng, V, sos)
+        seq.append({"src": "aux", "sos": s, "dicts": tab(s, n), "via": rng.choice(LOAD_VIA)})
+    seq.append({"src": "main", "via": rng.choice(LOAD_VIA)})
+    return {"target": target, "seq": seq}
+
+
+def katz_full(dicts, V, src_sos, sos, hist, B):
+    """Katz back-off evaluated directly on a table (Python fractions): the numbers an object with start symbol `sos`
+    must give on `hist` once it holds the model of `dicts`, a table written for start symbol `src_sos` (of the same
+    class; outside the vocabulary the symbol is only a name for the extra unigram: renamed)."""
+    N = len(dicts)
+    ren = (lambda t: sos if t == src_sos else t) if not 0 <= src_sos < V else (lambda t: t)
+    tabs = [{tuple(ren(t) for t in e["key"]): e for e in d} for d in dicts]
+
+    def one(ctx, w):
+        acc = Fraction(0)
+        for d in range(len(ctx), -1, -1):
+            c = ctx[len(ctx) - d:]
+            e = tabs[d].get(c + (w,))
+            if e is not None and e["logp"] != NEG_INF:
+                return frac_str(acc + Fraction(e["logp"]))
+            if d == 0:
+                return NEG_INF
+            b = tabs[d - 1].get(c)
+            if b is not None:
+                acc += Fraction(b.get("logb", "0"))
+    out = []
+    for t in range(len(hist) + 1):
+        rows = []
+        for b in range(B):
+            h = [sos] * (N - 1) + [hist[i][b] for i in range(t)]
+            ctx = tuple(h[len(h) - (N - 1):]) if N > 1 else ()
+            rows.append([one(ctx, w) for w in range(V)])
+        out.append(rows)
+    return out
+
+
+def load_kind(case):
+    """The class of the receiving instance relative to the model loaded last (tags / messages)."""
+    tg = case["loads"]["target"]
+    N = len(case["dicts"])
+    if tg["dicts"] is None:
+        return "default"
+    n = len(tg["dicts"])
+    return "built_on_lower_order" if n < N else "built_on_equal_order" if n == N else "built_on_higher_order"
+
+
 LAYOUTS = ("contig", "transposed", "offset", "row_stride", "col_slice", "bf_slice", "bcast")
 
 
@@ -451,6 +528,10 @@ def pick_layout(rng, case, p_contig=0.35):
     case["pass_prev"] = rng.random() < 0.5
     if rng.random() < 0.3 and not case.get("oov"):
         case["steps"] = gen_steps(rng, case["V"], case["sos"])
+    if rng.random() < 0.25 and not case.get("oov") and table_valid(case["dicts"], case["V"], case["sos"]):
+        # the case's model is also loaded into an instance that held other tables before
+        case["loads"] = gen_loads(rng, case["V"], case["sos"], rng.choice((None, 1, 2, 3, 4)),
+                                  [rng.choice((1, 2, 3, 4)) for _ in range(rng.choice((0, 0, 1, 1, 2)))])
     return case
 
 
@@ -533,6 +614,9 @@ class C06(PropertyCheck):
         yield from self.reuse_stream(rng, tier)
         # 1d. (audit E) one empty dict object at several positions of the table, non-destructive constructions
         yield from self.alias_stream(rng, tier)
+        # 1e. save/load into TARGET instances of every kind: default-constructed, constructed from tables of lower /
+        # equal / higher order (other sparsity, other start symbol of the same class), after one or two earlier loads
+        yield from self.load_stream(rng, tier)
         # (order: the small complete streams first - layouts, ARPA option grid, malformed, sizes - so that a slow
         # machine's time budget can only cut into the random bulk, never into a whole class of input)
         # 4b. memory layouts of the history tensor: every kind of view x order x batch width, T >= 3
@@ -684,6 +768,25 @@ class C06(PropertyCheck):
                             c["steps"][-1]["ctor"] = "destructive_kw"
                         elif k == len(plans) + 2:                 # ... or in the middle: the rest is rejected
                             c["steps"][0]["ctor"] = "destructive"
+                        yield c
+
+    def load_stream(self, rng, tier):
+        """Every (order of the saved model) x (kind of receiving instance: default / built on order 1..4) x (what it
+        loaded before: nothing, one model, two models going up or down in order)."""
+        for rep in range(1 if tier == "quick" else 4):
+            for Ns in (1, 2, 3) if tier == "quick" else (1, 2, 3, 4):
+                for Nt in (None, 1, 2, 3, 4):
+                    chains = [(), (rng.choice((2, 3, 4)),), (1,), (1, 3), (4, 2)]
+                    if tier == "quick":      # nothing / one earlier load / two (up or down), drawn per cell
+                        chains = [(), rng.choice(chains[1:3]), rng.choice(chains[3:])]
+                    for pre in chains:
+                        V = rng.choice((1, 2, 3, 4))
+                        sos = rng.choice((rng.randrange(V), -1, V))
+                        dicts = gen_table(rng, V, sos, Ns, rng.choice((0.3, 0.6)), 0.1, 0.5, max_top=10)
+                        c = std_case(rng, V, sos, Ns, rng.randrange(1, 5), rng.randrange(1, 3), dicts, p_sos=0.3)
+                        c.pop("steps", None)
+                        c["ctor"] = "positional"
+                        c["loads"] = gen_loads(rng, V, sos, Nt, pre)
                         yield c
 
     def alias_stream(self, rng, tier):
@@ -906,11 +1009,77 @@ class C06(PropertyCheck):
                             g = {"error": type(e).__name__}
                         if g != got:
                             out["idx_form_diffs"].append(f"idx={hidx} as {name}: {g} instead of {got}")
+            # ---- the model's state dict loaded into an instance that held other tables before
+            if case.get("loads") and not case.get("oov"):
+                out["loads"] = self.run_loads(case, lm, changes)
             # ---- the model itself must survive being evaluated, reloaded from, and having siblings built
             if self.raw_buffers(lm) != buffers0:
                 changes.append(["model_buffers", "evaluating the model (or loading its state dict into another "
                                                  "instance) changed its own buffers"])
         return out
+
+    def run_loads(self, case, lm, changes):
+        """Construct the receiving instance, load every state dict of the sequence into it in turn; after every load:
+        its shape attributes, its state dict against the source's, its answers (all positions, chunked, one index
+        per batch element) on the case's history."""
+        import torch
+        from pydrobert.torch.modules import LookupLanguageModel
+        V, B, T = case["V"], case["B"], len(case["hist"])
+        spec = case["loads"]
+        tg = spec["target"]
+        if tg["dicts"] is None:
+            target = LookupLanguageModel(V, tg["sos"])
+        else:
+            target = construct(V, tg["sos"], to_prob_dicts(tg["dicts"]), tg.get("ctor", "positional"))
+        hist_t = torch.tensor(step_hist(case, tg["sos"]), dtype=torch.long).view(T, B)
+        hidx = case["idxs"][-1] if case["idxs"] else [0]
+        it = torch.tensor(hidx[0] if len(hidx) == 1 else hidx, dtype=torch.long)
+        res = []
+        for k, ld in enumerate(spec["seq"]):
+            src = lm if ld["src"] == "main" else construct(V, ld["sos"], to_prob_dicts(ld["dicts"]), "positional")
+            before = self.raw_buffers(src)
+            sd = src.state_dict()
+            o = {"src_attrs": {"N": src.max_ngram, "G": src.max_ngram_nodes, "S": src.max_direct_descendants}}
+            if ld["via"] == "serialised":
+                buf = io.BytesIO()
+                torch.save(sd, buf)
+                buf.seek(0)
+                given = torch.load(buf)
+            elif ld["via"] == "clone":
+                given = {key: v.clone() for key, v in sd.items()}
+            else:
+                given = sd
+            given_snap = {key: str(v.dtype) + str(v.tolist()) for key, v in given.items()}
+            try:
+                target.load_state_dict(given)
+            except Exception as e:
+                o["load_error"] = type(e).__name__ + ": " + str(e)[:160]
+                res.append(o)
+                continue
+            if {key: str(v.dtype) + str(v.tolist()) for key, v in given.items()} != given_snap:
+                changes.append(["state_dict", f"load #{k + 1} into the used instance changed the state dict it was given"])
+            o["attrs"] = {"N": target.max_ngram, "G": target.max_ngram_nodes, "S": target.max_direct_descendants}
+            sd2 = target.state_dict()
+            diff = []
+            if list(sd2) != list(sd):
+                diff.append(f"keys {list(sd2)} instead of {list(sd)}")
+            else:
+                for key in sd:
+                    a, b = sd2[key], sd[key]
+                    if a.dtype != b.dtype or a.shape != b.shape or str(a.tolist()) != str(b.tolist()):  # (NaN pads)
+                        diff.append(f"{key}: {a.dtype}{short_(a.tolist(), 60)} instead of {b.dtype}{short_(b.tolist(), 60)}")
+            o["sd_diff"] = diff
+            try:
+                o["full"] = tens3(target(hist_t))
+                o["chunk2"] = tens3(target.calc_full_log_probs_chunked(hist_t, {}, 2))
+                o["idx"] = tens2(target(hist_t, idx=it)[0])
+            except Exception as e:
+                o["eval_error"] = type(e).__name__ + ": " + str(e)[:160]
+            if self.raw_buffers(src) != before:
+                changes.append(["model_buffers", f"load #{k + 1}: loading a model's state dict into another instance "
+                                                 "(or evaluating that instance) changed the SOURCE model's buffers"])
+            res.append(o)
+        return res
 
     @staticmethod
     def build_obs(lm):
@@ -1136,6 +1305,10 @@ class C06(PropertyCheck):
         out += self.compare_build(impl["build"], model["build"], "")
         if impl["shape"] != model["shape"]:
             out.append(f"load_state_dict shape: impl={impl['shape']} model={model['shape']}")
+        for k, o in enumerate(impl.get("loads", [])):
+            if case["loads"]["seq"][k]["src"] == "main" and "attrs" in o and o["attrs"] != model["shape"]:
+                out.append(f"load #{k + 1} into a used instance ({load_kind(case)}): shape attributes "
+                           f"impl={o['attrs']} model(inferShape)={model['shape']}")
         if impl["hist_is_contiguous"] != model["view_contig"]:
             out.append(f"hist.is_contiguous(): impl={impl['hist_is_contiguous']} model={model['view_contig']}")
         if not case.get("oov"):
@@ -1272,7 +1445,58 @@ class C06(PropertyCheck):
             return []
         if case["kind"] == "arpa":
             return self.predicate_arpa(case, impl)
-        return self.predicate_caller(case, impl, model) + self.predicate_table(case, impl, model)
+        return (self.predicate_caller(case, impl, model) + self.predicate_table(case, impl, model)
+                + self.predicate_loads(case, impl, model))
+
+    def predicate_loads(self, case, impl, model):
+        """After every load into the receiving instance (whatever it held before): it answers like Katz back-off on
+        the table of the model just loaded (padding = its own start symbol), holds that model's state dict and shape."""
+        if not impl.get("loads"):
+            return []
+        V, B, sos = case["V"], case["B"], case["sos"]
+        spec = case["loads"]
+        tg = spec["target"]
+        hist_t = step_hist(case, tg["sos"])
+        hidx = case["idxs"][-1] if case["idxs"] else [0]
+        hv = hidx * B if len(hidx) == 1 else hidx
+        held = "a default-constructed instance" if tg["dicts"] is None else \
+            f"an instance constructed from an order-{len(tg['dicts'])} table"
+        fails = []
+        for k, (ld, o) in enumerate(zip(spec["seq"], impl["loads"])):
+            main = ld["src"] == "main"
+            dicts, ssos = (case["dicts"], sos) if main else (ld["dicts"], ld["sos"])
+            N = len(dicts)
+            want = katz_full(dicts, V, ssos, tg["sos"], hist_t, B)
+            if main and model is not None and model.get("spec_full") is not None and \
+                    (tg["sos"] == sos or not 0 <= sos < V) and want != model["spec_full"]:
+                raise AssertionError("harness: the Python Katz recursion differs from the Lean spec on the case's table: "
+                                     + first_diff3(want, model["spec_full"]))
+            prev = [len(x["dicts"]) for x in spec["seq"][:k]]
+            where = (f"order-{N} model loaded ({ld['via']}) into {held}"
+                     + (f" that had loaded models of order {prev} before" if prev else "")
+                     + (f" (start symbol {tg['sos']}, the saved model's {ssos})" if tg["sos"] != ssos else ""))
+            tag = "@target=" + load_kind(case) + ("" if not prev else "+chain")
+            if "load_error" in o:
+                fails.append((f"{where}: load_state_dict raised {o['load_error']}", "C06.load_state_dict.raises" + tag))
+                continue
+            if o["attrs"] != o["src_attrs"]:
+                fails.append((f"{where}: max_ngram / max_ngram_nodes / max_direct_descendants are {o['attrs']}, "
+                              f"the saved model's {o['src_attrs']}", "C06.load_state_dict.shape" + tag))
+            if o["sd_diff"]:
+                fails.append((f"{where}: state_dict() of the loaded object differs from the saved one: "
+                              + "; ".join(o["sd_diff"][:3]), "C06.load_state_dict.state_dict" + tag))
+            if "eval_error" in o:
+                fails.append((f"{where}: evaluating the loaded object raised {o['eval_error']}",
+                              "C06.value.after_load.raises" + tag))
+                continue
+            for name, got in (("all positions at once", o["full"]), ("chunk_size=2", o["chunk2"])):
+                if got != want:
+                    fails.append((f"{where}, {name}: log-probabilities differ from Katz back-off on the saved model's "
+                                  "table: " + first_diff3(got, want), "C06.value.after_load" + tag))
+            if o["idx"] != [want[hv[b]][b] for b in range(B)]:
+                fails.append((f"{where}, idx={hidx}: differs from Katz back-off on the saved model's table",
+                              "C06.value.after_load.idx" + tag))
+        return fails
 
     def predicate_caller(self, case, impl, model):
         """(a) No call may change an object the caller handed over (unless documented: destructive=True) nor the
@@ -1466,6 +1690,25 @@ class C06(PropertyCheck):
             t.append("table:one_dict_object_at_several_positions")
         t.append("reload=" + case.get("reload", "serialised"))
         t.append("prev=" + ("passed" if case.get("pass_prev") else "default"))
+        if case.get("loads"):
+            ld = case["loads"]
+            N = len(case["dicts"])
+            t.append("load:target=" + load_kind(case))
+            t.append(f"load:saved_order={N},target=" + ("default" if ld["target"]["dicts"] is None
+                                                        else "order%d" % len(ld["target"]["dicts"])))
+            pre = [len(x["dicts"]) for x in ld["seq"][:-1]]
+            t.append(f"load:earlier_loads={len(pre)}")
+            if pre:
+                t.append("load:last_earlier_load_" + ("lower" if pre[-1] < N else "equal" if pre[-1] == N else "higher")
+                         + "_order")
+            if len(pre) == 2:
+                t.append("load:chain_" + ("up" if pre[0] < pre[1] else "down" if pre[0] > pre[1] else "level"))
+            cur = pre[-1] if pre else (0 if ld["target"]["dicts"] is None else len(ld["target"]["dicts"]))
+            if N == 1 and cur >= 2:
+                t.append("load:unigram_model_into_instance_holding_order>=2")
+            t.append("load:target_sos=" + ("same" if ld["target"]["sos"] == sos else "other_of_the_class"))
+            for x in ld["seq"]:
+                t.append("load:via=" + x["via"])
         steps = case.get("steps", [])
         if steps:
             t.append(f"reuse:constructions={len(steps) + 1}")
@@ -1531,6 +1774,20 @@ class C06(PropertyCheck):
             yield dict(case, pass_prev=False)
         if case.get("alias"):
             yield {k: v for k, v in case.items() if k != "alias"}
+        if case.get("loads"):
+            ld = case["loads"]
+            yield {k: v for k, v in case.items() if k != "loads"}
+            for i in range(len(ld["seq"]) - 1):
+                yield dict(case, loads=dict(ld, seq=ld["seq"][:i] + ld["seq"][i + 1:]))
+            if ld["target"]["dicts"] is not None:
+                yield dict(case, loads=dict(ld, target=dict(ld["target"], dicts=None)))
+                if ld["target"].get("ctor", "positional") != "positional":
+                    yield dict(case, loads=dict(ld, target=dict(ld["target"], ctor="positional")))
+            if ld["target"]["sos"] != case["sos"]:
+                yield dict(case, loads=dict(ld, target=dict(ld["target"], sos=case["sos"], dicts=None)))
+            for i, x in enumerate(ld["seq"]):
+                if x["via"] != "serialised":
+                    yield dict(case, loads=dict(ld, seq=ld["seq"][:i] + [dict(x, via="serialised")] + ld["seq"][i + 1:]))
         steps = case.get("steps", [])
         if steps:
             yield {k: v for k, v in case.items() if k != "steps"}
@@ -1567,7 +1824,7 @@ class C06(PropertyCheck):
                     yield dict(case, dicts=dicts[:n] + [d[:i] + d[i + 1:]] + dicts[n + 1:])
         if case["V"] > 1 and all(t < case["V"] - 1 for d in dicts for e in d for t in e["key"]) \
                 and all(t < case["V"] - 1 for r in case["hist"] for t in r) and case["sos"] < case["V"] - 1 \
-                and all(st["sos"] != case["V"] - 1 for st in case.get("steps", [])):
+                and all(st["sos"] != case["V"] - 1 for st in case.get("steps", [])) and not case.get("loads"):
             yield dict(case, V=case["V"] - 1)
 
 
